@@ -31,6 +31,24 @@ type c28Out struct {
 }
 
 func c28Program(r *rand.Rand, id string) string {
+	if r.Intn(8) == 0 {
+		// bodies that are accepted when the program is parsed but fail when they are reached
+		// (dangling pipe / operator), and calls whose typed parameters cannot be converted:
+		// the forks made for them never run their block
+		tail := []string{"|", "->", "&&", "||", "; | out b"}[r.Intn(5)]
+		switch r.Intn(5) {
+		case 0:
+			return fmt.Sprintf("function c28b_%s { out a %s }\nc28b_%s\nout after\n!function c28b_%s\n", id, tail, id, id)
+		case 1:
+			return fmt.Sprintf("c28w = 0\nwhile { $c28w < 1 } { c28w = 1; out a %s }\nout after\n", tail)
+		case 2:
+			return fmt.Sprintf("time { out a %s }\nout after\n", tail)
+		case 3:
+			return fmt.Sprintf("function c28t_%s (n: int) { out $n }\nc28t_%s abc\nc28t_%s 3\nout after\n!function c28t_%s\n", id, id, id, id)
+		default:
+			return fmt.Sprintf("private c28p_%s { out a %s }\nc28p_%s\nout after\n", id, tail, id)
+		}
+	}
 	switch r.Intn(6) {
 	case 0, 1:
 		// && / || chains in every run mode: the skipped processes are deregistered by hand in the run-mode code
@@ -66,7 +84,7 @@ func init() {
 	register(&Property{
 		ID:    "C28",
 		Level: "exploration",
-		Rule: "batches of 24 PRNG programs — && / || chains in normal, try and trypipe run modes (plain, in functions, in try / trypipe blocks), nested functions with break / continue / return, dataflow pipelines, foreach with early break, sub-shells — executed concurrently from 2-8 goroutines in one murex process with PRNG scheduling yields at the process life-cycle hook points; observed: every `fid.register` / `fid.deregister` hook event, the live FID table sampled every 150 us while the programs run, and the table once the batch is quiet (bounded polling); " +
+		Rule: "batches of 24 PRNG programs — && / || chains in normal, try and trypipe run modes (plain, in functions, in try / trypipe blocks), nested functions with break / continue / return, dataflow pipelines, foreach with early break, sub-shells, function / while / time / private bodies that only fail to parse when they are reached, calls whose typed parameters cannot be converted — executed concurrently from 2-8 goroutines in one murex process with PRNG scheduling yields at the process life-cycle hook points; observed: every `fid.register` / `fid.deregister` hook event, the live FID table sampled every 150 us while the programs run, and the table once the batch is quiet (bounded polling); " +
 			"oracle: no function id is handed out twice during the life of the process, no two live table entries carry the same id, every id registered in the batch is deregistered, and no process descending from a finished program is left in the table; non-trivial = a batch containing try / trypipe / || / break / return / continue programs (the paths with hand-written deregistration); distinct by (batch, interleaving signature)",
 		Assumptions: []string{"quiescence is decided by bounded polling of the table (leftovers unchanged over 150 polls), not by a fixed sleep"},
 		Technique:   "runtime monitoring: hook event log (exactly-once register / deregister, unique ids) and live-table sampling under concurrent programs with injected yields",
